@@ -9,7 +9,7 @@ meta = {
  "origin": origin,
  "needs_to_manifest": needs,
  "confirmed": {
-   "how": "tools/confirm_seed.sh in the author's scratch worktree (removed afterwards): `cargo test --workspace --offline --no-fail-fast` with the change applied -> every pre-existing test target passes (314+15+15+55+1+1 tests, 68 doc tests), only tests/seeded_demo.rs fails; `git stash push -- src` then `cargo test --offline --test seeded_demo` -> the demonstration passes on the original source",
+   "how": "tools/confirm_seed.sh in the author's scratch worktree (removed afterwards): `cargo test --workspace --offline --no-fail-fast` with the change applied -> every pre-existing test target passes (314+15+15+55+1+1 tests, 68 doc tests), only tests/seeded_demo.rs fails; `git apply -R` of the source part of the change, then `cargo test --offline --test seeded_demo` -> the demonstration passes on the original source",
    "demo": "seeded_demo.rs" if os.path.exists(os.path.join(d,'seeded_demo.rs')) else None,
  },
  "ran_against_checks": "tools/try_seed.sh seeded/%s/patch.diff <tier> <checks> (git apply in /repo, ./check, git checkout -- .)" % name,
